@@ -4,203 +4,414 @@ import ast
 
 from ..rulekit import *
 from ..norm import Normalizer, Poly
+from . import _kit_c02 as kit
 
 R = Rules(
     "C02",
     explanation=(
-        "Structural clauses of response matching decided on tokenmanager.py, protocol.Request and udp6: the key "
-        "stored by TokenManager.request and the key looked up by process_response are both (token, remote) "
-        "(remote = None only on the multicast arm / as the single fall-back); a response is handed over only to the "
-        "object found by that lookup and an unsuccessful lookup returns False (which the message layer turns into a "
-        "Reset, C10); outgoing_requests is written only by TokenManager, each registration is paired with a removal "
-        "on loss of interest under the same key, and a registration is retired exactly when the response is final "
-        "(final = not(request asked to observe and response carries Observe)); tokens come from a 64-bit counter that "
-        "only next_token advances by one, rendered injectively, and are assigned before the key is formed; transport "
-        "errors are fanned out only to requests of the reported remote and always as NetworkError; the generator "
-        "Request._run completes the response future exactly once before its first suspension and never again; "
-        "endpoint equality and hash use the same projection of the socket address that keeps address and port.  "
-        "Completion under arbitrary loss/duplication/reordering schedules is not decided."
+        "Clauses of response matching decided on tokenmanager.py, protocol.Request and udp6.  a-e are decided by running "
+        "TokenManager.request / process_response / next_token / dispatch_error in the checker's own evaluator (tree-walking "
+        "interpreter over the syntax trees, nothing of the repository is executed) on small worlds -- finite request tables "
+        "keyed by tuples of distinct individuals, concrete Observe / is_multicast values, opaque request objects whose calls "
+        "are recorded -- and comparing events, final tables and return values with the property: the request is filed under "
+        "(token, remote), remote = None exactly for multicast destinations; a response goes exactly once to the entry under "
+        "(token, remote), else to the one under (token, None), never to an entry that differs in token or remote; no entry -> "
+        "falsy return and no delivery (the message layer turns that into a Reset, C10); outgoing_requests is written only by "
+        "TokenManager; the entry disappears when interest ends (also when it ended before the registration) under the same key, "
+        "tolerantly; it is retired exactly when the response is final (final = not(request asked to observe and response "
+        "carries Observe)); tokens come from a 64-bit counter that only next_token advances by one, rendered without "
+        "collisions, drawn before the key is formed; transport errors fail exactly the requests of the reported remote, each "
+        "once, always with a NetworkError; the generator Request._run completes the response future exactly once before its "
+        "first suspension and never again; endpoint equality and hash use the same projection of the socket address that keeps "
+        "address and port.  Completion under arbitrary loss/duplication/reordering schedules is not decided."
     ),
-    rule_text="def-use tracing of key components, dominance and exactly-once path rules, ownership over the whole package, normal forms",
+    rule_text="small-scope evaluation of the token manager's methods against behavioural reference outcomes; ownership over the whole package; exactly-once path rules; normal forms",
 )
 
 TM = "tokenmanager.TokenManager."
 
+# ---------------------------------------------------------------------------------------------------------------
+# Clauses a-e are decided on *small worlds* (rules/_kit_c02.py): request(), process_response(), next_token() and
+# dispatch_error() are run in the checker's own evaluator on finite request tables whose keys are tuples of
+# distinct individuals, and the rule compares what happened (calls on the request objects, final table contents,
+# return value) with what the property demands.  A refuted obligation is backed by a concrete world, so the
+# verdict does not depend on how the function is spelled: helper methods (whether or not the engine expanded
+# them), early returns, try/except KeyError vs. .get()/membership, conditional expressions, comprehensions,
+# functools.partial / lambda / nested def, pop vs. del all behave the same.  Calls of methods of the confirmed
+# tree (coaplint/baseline_functions.txt, e.g. next_token) and calls on foreign objects are opaque events; methods
+# that are not part of the confirmed tree are helpers and are evaluated.  Anything outside the evaluator's
+# vocabulary is an analysis error, never a violation.
 
-def _key_values(fi, name):
-    vals = []
-    for w in writes_to_name(fi.node, name):
-        if isinstance(w, ast.Assign) and len(w.targets) == 1 and isinstance(w.targets[0], ast.Name):
-            vals.append((w, w.value))
-        else:
-            vals.append((w, None))
-    return vals
+
+class _Verdicts:
+    """Aggregates one obligation per description over all worlds; the first refuting world is reported."""
+
+    def __init__(self, ctx, fi):
+        self.ctx = ctx
+        self.fi = fi
+        self.items = {}
+        self.order = []
+
+    def check(self, desc, ok, node=None, detail=None, run=None):
+        if not ok and run is not None and run.it.choices:
+            # the refuting run branched on something the world does not model (an unset attribute, the result of an
+            # opaque call): it may be correlated with the modelled facts, so the run is no counterexample
+            raise AnalysisError("%s: the evaluated world does not determine the outcome: `%s` depends on %s" % (
+                self.fi.short, desc, ", ".join(sorted(run.it.facts))[:300]))
+        if desc not in self.items:
+            self.items[desc] = [0, None, node]
+            self.order.append(desc)
+        it = self.items[desc]
+        it[0] += 1
+        if it[2] is None and node is not None:
+            it[2] = node
+        if not ok and it[1] is None:
+            it[1] = (node, detail)
+        return ok
+
+    def emit(self):
+        for desc in self.order:
+            n, fail, anynode = self.items[desc]
+            if fail is None:
+                node = anynode
+                self.ctx.ob(desc, True, self.fi, node if node is not None else self.fi.node, detail="%d world evaluation(s)" % n,
+                            construct=None if node is not None else "def %s" % self.fi.node.name)
+            else:
+                node, detail = fail
+                self.ctx.ob(desc, False, self.fi, node if node is not None else self.fi.node, detail=detail,
+                            construct=None if node is not None else "def %s" % self.fi.node.name)
 
 
-def _component(fi, e):
-    """Resolve a key component to a canonical chain through single-assignment locals: msg -> request.request"""
-    parts = []
-    while isinstance(e, ast.Attribute):
-        parts.append(e.attr)
-        e = e.value
-    if isinstance(e, ast.Name):
-        v = resolve_local(fi.node, e)
-        base = chain(v) if v is not e else e.id
-        if base is None:
-            return None
-        return ".".join([base] + list(reversed(parts)))
-    if isinstance(e, ast.Constant) and e.value is None and not parts:
-        return "None"
-    return None
+def _cached(ctx, key, build):
+    cache = ctx.prog.__dict__.setdefault("_c02_worlds", {})
+    if key not in cache:
+        try:
+            cache[key] = ("ok", build())
+        except AnalysisError as e:
+            cache[key] = ("err", e)
+    kind, v = cache[key]
+    if kind == "err":
+        raise AnalysisError(str(v))
+    return v
+
+
+def _no_foreign_objects(ctx, it, what):
+    """The worlds file requests under plain tuples; a function that wraps keys or entries in objects of its own
+    (a key class, a record) is outside what the worlds can represent: refuse instead of misjudging identity."""
+    for ev in it.events:
+        if ev.kind == "new" and not ctx.prog.is_subclass(ev.cls, "BaseException"):
+            raise AnalysisError("%s constructs %s: outside the small worlds of the rule" % (what, ev.cls))
+
+
+def _tm_qn(ctx):
+    return ctx.prog.cls("tokenmanager.TokenManager").qn
+
+
+def _show_key(k):
+    return "(%s)" % ", ".join("None" if x is None else getattr(x, "name", repr(x)) for x in k) if isinstance(k, tuple) else repr(k)
+
+
+# -- process_response ------------------------------------------------------------------------------------------------
+
+class _PRRun:
+    pass
+
+
+def _process_response_runs(ctx):
+    """process_response on 4 tables x 3 request-Observe values x 3 response-Observe values.  The table always holds
+    decoys that agree with the response in one component only."""
+    def build():
+        fi = ctx.prog.func(TM + "process_response")
+        ps = params(fi)
+        ctx.need(len(ps) == 1, "process_response: one parameter expected")
+        qn = _tm_qn(ctx)
+        runs = []
+        for table in ("both", "full", "fallback", "none"):
+            for ro in (None, 0, 1):
+                for so in (None, 0, 7):
+                    def run(script, table=table, ro=ro, so=so):
+                        it = kit.Interp(ctx.prog, script)
+                        T, T2 = kit.Obj("token", True), kit.Obj("other-token", True)
+                        Rm, R2 = kit.Obj("remote", True), kit.Obj("other-remote", True)
+
+                        def rq(name):
+                            q = kit.Obj(name, True)
+                            q.attrs["request"] = kit.Obj(name + ".request", True, attrs={"opt": kit.Obj(name + ".request.opt", True, attrs={"observe": ro})})
+                            return q
+                        pairs = [((T, R2), rq("decoy-other-remote"))]
+                        if table in ("both", "fallback"):
+                            pairs.append(((T, None), rq("request-filed-without-remote")))
+                        pairs.append(((T2, Rm), rq("decoy-other-token")))
+                        if table in ("both", "full"):
+                            pairs.append(((T, Rm), rq("request-filed-under-token-and-remote")))
+                        pairs.append(((T2, None), rq("decoy-other-token-without-remote")))
+                        resp = kit.Obj("response", True, attrs={"token": T, "remote": Rm, "opt": kit.Obj("response.opt", True, attrs={"observe": so})})
+                        D = kit.VDict(pairs, name="outgoing_requests")
+                        me = kit.Obj("self", True, cls=qn, attrs={"outgoing_requests": D, "incoming_requests": kit.VDict((), name="incoming_requests")})
+                        r = _PRRun()
+                        r.table, r.ro, r.so, r.initial, r.D, r.resp = table, ro, so, [(k, v) for k, v in pairs], D, resp
+                        r.full = next((v for k, v in pairs if k == (T, Rm)), None)
+                        r.fallback = next((v for k, v in pairs if k == (T, None)), None)
+                        r.full_key, r.fallback_key = (T, Rm), (T, None)
+                        r.result = it.run_method(fi, me, [resp])
+                        r.it = it
+                        _no_foreign_objects(ctx, it, "process_response")
+                        return it, r
+                    for it, r in kit.explore(run):
+                        runs.append(r)
+        return fi, runs
+    return _cached(ctx, "process_response", build)
+
+
+def _world_pr(r):
+    t = {"both": "entries under (token, remote) and under (token, None)", "full": "an entry under (token, remote) only",
+         "fallback": "an entry under (token, None) only", "none": "no entry for the token/remote of the response"}[r.table]
+    return "world: %s (plus decoys differing in token or remote); request Observe=%r, response Observe=%r" % (t, r.ro, r.so)
+
+
+def _deliveries(r):
+    return [e for e in r.it.events if e.kind == "call" and e.callee.attr == "add_response" and e.callee.parent is not None]
+
+
+def _is_last_of(ctx, ev):
+    v = ev.kwargs["is_last"] if "is_last" in ev.kwargs else (ev.args[1] if len(ev.args) > 1 else False)
+    ctx.need(isinstance(v, kit.NATIVE), "add_response: is_last is not a constant in the evaluated world (%r)" % (v,))
+    return bool(v)
+
+
+def _check_lookup(ctx):
+    """C02.a, lookup side."""
+    fi, runs = _process_response_runs(ctx)
+    V = _Verdicts(ctx, fi)
+    for r in runs:
+        w = _world_pr(r)
+        ds = _deliveries(r)
+        legit = [x for x in (r.full, r.fallback) if x is not None]
+        for e in ds:
+            V.check("lookup key is (response token, response remote) or the multicast fall-back (token, None)", e.callee.parent in legit, e.node,
+                    "%s: the response went to %s" % (w, e.callee.parent.name), run=r)
+        if r.table == "both":
+            for e in ds:
+                V.check("the fall-back key is used only when the full key is unknown", e.callee.parent != r.fallback, e.node,
+                        "%s: the response went to the request filed under (token, None)" % w, run=r)
+        if r.table in ("both", "full"):
+            V.check("the full (token, remote) key is tried", any(e.callee.parent == r.full for e in ds), ds[0].node if ds else None,
+                    "%s: the request filed under (token, remote) did not get the response" % w, run=r)
+        if r.table == "fallback":
+            V.check("the multicast fall-back (token, None) is tried when the full key is unknown", any(e.callee.parent == r.fallback for e in ds), ds[0].node if ds else None,
+                    "%s: the request filed under (token, None) did not get the response" % w, run=r)
+    V.emit()
 
 
 @R.clause("C02.a", "the key stored by request() and the key looked up by process_response() are both (token, remote) in that order")
 def a(ctx):
-    fi = ctx.prog.func(TM + "request")
-    rq = params(fi)[0]
-    cfg = cfg_of(fi)
-    stores = [(k, n) for k, n in stores_to(fi.node, "self.outgoing_requests", nested=False) if k == "setitem"]
-    ctx.floor("registrations in request()", len(stores), 1)
-    msgchain = rq + ".request"
-    for k, st in stores:
-        key = st.targets[0].slice
-        cands = [(st, key)] if not isinstance(key, ast.Name) else _key_values(fi, key.id)
-        ctx.need(cands, "request(): key has no visible definition")
-        for w, v in cands:
-            b = match("($t, $r)", v) if v is not None else None
-            tok = _component(fi, b["t"]) if b else None
-            rem = _component(fi, b["r"]) if b else None
-            ctx.ob("registration key is (message token, message remote)", b is not None and tok == msgchain + ".token" and rem in (msgchain + ".remote", "None"), fi, w,
-                   detail="components: %s, %s" % (tok, rem))
-            if rem == "None":
-                nid = cfg.loc1(w)
-                gs = guard_exprs(cfg, nid)
-                ok = any(pol and _component(fi, e) == msgchain + ".remote.is_multicast" for e, pol in gs)
-                ctx.ob("the remote is left out of the key only for multicast destinations", ok, fi, w)
-        ctx.ob("what is registered is the request object handed in", isinstance(st.value, ast.Name) and st.value.id == rq, fi, st)
-    fi = ctx.prog.func(TM + "process_response")
-    rs = params(fi)[0]
-    lookups = [n for n in walk_no_nested(fi.node) if isinstance(n, ast.Subscript) and chain(n.value) == "self.outgoing_requests" and isinstance(n.ctx, ast.Load)]
-    ctx.floor("lookups in process_response()", len(lookups), 1)
-    for lk in lookups:
-        key = lk.slice
-        cands = [(lk, key)] if not isinstance(key, ast.Name) else _key_values(fi, key.id)
-        n_full = 0
-        for w, v in cands:
-            b = match("($t, $r)", v) if v is not None else None
-            tok = _component(fi, b["t"]) if b else None
-            rem = _component(fi, b["r"]) if b else None
-            ok = b is not None and tok == rs + ".token" and rem in (rs + ".remote", "None")
-            if rem == rs + ".remote":
-                n_full += 1
-            ctx.ob("lookup key is (response token, response remote) or the multicast fall-back (token, None)", ok, fi, w, detail="components: %s, %s" % (tok, rem))
-            if rem == "None":
-                cfg = cfg_of(fi)
-                nid = cfg.loc1(w)
-                ok2 = any(not pol and isinstance(e, ast.Compare) and isinstance(e.ops[0], ast.In) and chain(e.comparators[0]) == "self.outgoing_requests" for e, pol in guard_exprs(cfg, nid)) or \
-                    any(pol and isinstance(e, ast.Compare) and isinstance(e.ops[0], ast.NotIn) and chain(e.comparators[0]) == "self.outgoing_requests" for e, pol in guard_exprs(cfg, nid))
-                ctx.ob("the fall-back key is used only when the full key is unknown", ok2, fi, w)
-        ctx.ob("the full (token, remote) key is tried", n_full >= 1, fi, lk)
+    _check_registration(ctx, "a")
+    _check_lookup(ctx)
 
 
 @R.clause("C02.b", "a response is delivered only to the request found by the lookup; an unsuccessful lookup returns False")
 def b(ctx):
-    fi = ctx.prog.func(TM + "process_response")
-    cfg = cfg_of(fi)
-    adds = [c for c in calls_in(fi.node) if isinstance(c.func, ast.Attribute) and c.func.attr == "add_response"]
-    ctx.floor("add_response sites in process_response", len(adds), 1)
-    ctx.ob("exactly one delivery site", len(adds) == 1, fi, adds[-1], detail=str(len(adds)))
-    handlers = [n for n in cfg.nodes if n.kind == "handler"]
-    for c in adds:
-        nid = cfg.loc1(c)
-        recv = c.func.value
-        v = None
-        if isinstance(recv, ast.Name):
-            ws = writes_to_name(fi.node, recv.id)
-            if len(ws) == 1 and isinstance(ws[0], ast.Assign):
-                v = ws[0].value
-        ok = v is not None and isinstance(v, ast.Subscript) and chain(v.value) == "self.outgoing_requests"
-        ctx.ob("the receiver of the response is the object found under the key", ok, fi, c)
-        ctx.ob("the response handed over is the incoming one", c.args and isinstance(c.args[0], ast.Name) and c.args[0].id == params(fi)[0], fi, c)
-        for h in handlers:
-            ctx.ob("no delivery after a failed lookup", nid not in cfg.reach({h.id}), fi, c)
-    ctx.floor("KeyError handler in process_response", len(handlers), 1)
-    for h in handlers:
-        catches = h.ast.type is not None and ("KeyError" in ast.unparse(h.ast.type) or "LookupError" in ast.unparse(h.ast.type))
-        rets = [n for n in cfg.reach({h.id}) if cfg.nodes[n].kind == "return"]
-        false_only = bool(rets) and all(isinstance(cfg.nodes[n].ast.value, ast.Constant) and cfg.nodes[n].ast.value.value is False for n in rets)
-        ctx.ob("an unknown (token, remote) makes process_response return False", catches and false_only and cfg.must_pass(h.id, rets), fi, h.ast, construct="except %s" % (ast.unparse(h.ast.type) if h.ast.type else ""))
-    for c in adds:
-        nid = cfg.loc1(c)
-        rets = [n for n in cfg.reach({nid}) if cfg.nodes[n].kind == "return"]
-        ok = bool(rets) and all(isinstance(cfg.nodes[n].ast.value, ast.Constant) and cfg.nodes[n].ast.value.value is True for n in rets) and cfg.must_pass(nid, rets)
-        ctx.ob("a delivered response is reported as matched (True)", ok, fi, c)
+    fi, runs = _process_response_runs(ctx)
+    V = _Verdicts(ctx, fi)
+    for r in runs:
+        w = _world_pr(r)
+        ds = _deliveries(r)
+        target = r.full if r.full is not None else r.fallback
+        kind, val = r.result
+        if target is None:
+            V.check("no delivery after a failed lookup", not ds, ds[0].node if ds else None, "%s: the response went to %s" % (w, ds[0].callee.parent.name if ds else "-"), run=r)
+            if kind == "return":
+                ctx.need(isinstance(val, kit.NATIVE), "process_response returns a non-constant in the evaluated world")
+            V.check("an unknown (token, remote) makes process_response return False", kind == "return" and not val, None,
+                    "%s: %s" % (w, "returns %r" % (val,) if kind == "return" else "raises %s" % val.cls), run=r)
+        else:
+            V.check("exactly one delivery", len(ds) == 1, ds[-1].node if ds else None, "%s: %d deliveries" % (w, len(ds)), run=r)
+            for e in ds:
+                V.check("the receiver of the response is the object found under the key", e.callee.parent == target, e.node, "%s: the response went to %s" % (w, e.callee.parent.name), run=r)
+                V.check("the response handed over is the incoming one", bool(e.args) and e.args[0] == r.resp, e.node, "%s: handed over %r" % (w, e.args[0] if e.args else None), run=r)
+            if kind == "return":
+                ctx.need(isinstance(val, kit.NATIVE), "process_response returns a non-constant in the evaluated world")
+            V.check("a delivered response is reported as matched (True)", kind == "return" and bool(val), ds[0].node if ds else None,
+                    "%s: %s" % (w, "returns %r" % (val,) if kind == "return" else "raises %s" % val.cls), run=r)
+    V.emit()
+
+
+# -- request -----------------------------------------------------------------------------------------------------------
+
+class _RQRun:
+    pass
+
+
+def _request_runs(ctx):
+    """request() on {unicast, multicast} x {interest alive, interest already gone (on_interest_end fires at once, as
+    Pipe.on_interest_end does)}; the table already holds decoy entries."""
+    def build():
+        fi = ctx.prog.func(TM + "request")
+        ps = params(fi)
+        ctx.need(len(ps) == 1, "request: one parameter expected")
+        qn = _tm_qn(ctx)
+        runs = []
+        for mc in (False, True):
+            for gone in (False, True):
+                def run(script, mc=mc, gone=gone):
+                    r = _RQRun()
+                    r.mc, r.gone, r.tokens, r.cbs = mc, gone, [], []
+                    Rm = kit.Obj("remote", True, attrs={"is_multicast": mc})
+                    msg = kit.Obj("request.request", True, attrs={"remote": Rm})
+                    rq = kit.Obj("request", True, attrs={"request": msg})
+                    T0 = kit.Obj("older-token", True)
+                    pairs = [((T0, Rm), kit.Obj("older-request", True)), ((T0, None), kit.Obj("older-multicast-request", True))]
+                    D = kit.VDict(pairs, name="outgoing_requests")
+                    me = kit.Obj("self", True, cls=qn, attrs={"outgoing_requests": D, "incoming_requests": kit.VDict((), name="incoming_requests"),
+                                                              "token_interface": kit.Obj("token_interface", True)})
+
+                    def opaque(it, callee, args, kwargs, node):
+                        if callee.parent == rq and callee.attr == "on_interest_end" and len(args) + len(kwargs) == 1:
+                            cb = args[0] if args else next(iter(kwargs.values()))
+                            r.cbs.append(cb)
+                            if gone:
+                                it.call(cb, [], {}, node)
+                            return None
+                        if callee.parent == me and callee.attr == "next_token":
+                            t = it.fresh("token", known=True)
+                            r.tokens.append(t)
+                            return t
+                        return NotImplemented
+                    it = kit.Interp(ctx.prog, script, opaque_call=opaque)
+                    r.initial, r.D, r.rq, r.msg, r.remote, r.me = [(k, v) for k, v in pairs], D, rq, msg, Rm, me
+                    r.result = it.run_method(fi, me, [rq])
+                    r.it = it
+                    _no_foreign_objects(ctx, it, "request")
+                    return it, r
+                for it, r in kit.explore(run):
+                    runs.append(r)
+        return fi, runs
+    return _cached(ctx, "request", build)
+
+
+def _world_rq(r):
+    return "world: %s destination, %s" % ("multicast" if r.mc else "unicast", "interest in the request already gone (on_interest_end fires at once)" if r.gone else "requester still interested")
+
+
+def _same_table(it, pairs_a, pairs_b):
+    if len(pairs_a) != len(pairs_b):
+        return False
+    rest = list(pairs_b)
+    for k, v in pairs_a:
+        for i, (k2, v2) in enumerate(rest):
+            if it.veq(k, k2) and it.veq(v, v2):
+                del rest[i]
+                break
+        else:
+            return False
+    return True
+
+
+def _added(it, initial, D):
+    return [(k, v) for k, v in D.pairs if not any(it.veq(k, k0) for k0, _ in initial)]
+
+
+def _reg_node(r):
+    for e in r.it.events:
+        if e.kind == "dset" and e.d == "outgoing_requests" and e.node is not None:
+            return e.node
+    return None
+
+
+def _check_registration(ctx, part):
+    """The request() side of C02.a (part 'a'), C02.c ('c') and C02.d ('d')."""
+    fi, runs = _request_runs(ctx)
+    V = _Verdicts(ctx, fi)
+    for r in runs:
+        w = _world_rq(r)
+        it = r.it
+        kind, val = r.result
+        node = _reg_node(r)
+        tolerant = "the removal on loss of interest tolerates an already retired key"
+        if kind == "raise":
+            if part == "c":
+                V.check(tolerant, not (r.gone and val.cls == "KeyError"), node, "%s: request() raises %s" % (w, val.cls))
+            ctx.need(r.gone and val.cls == "KeyError", "request() raises %s in the evaluated world (%s)" % (val.cls, w))
+            continue
+        new = _added(it, r.initial, r.D)
+        tok = r.tokens[0] if len(r.tokens) == 1 else None
+        if part == "a" and not r.gone:
+            V.check("exactly one registration per request", len(new) == 1, node, "%s: %d new entries" % (w, len(new)))
+            for k, v in new:
+                shape = isinstance(k, tuple) and len(k) == 2
+                V.check("registration key is (message token, message remote)", shape and "token" in r.msg.attrs and k[0] == r.msg.attrs["token"] and (k[1] is None or k[1] == r.remote), node,
+                        "%s: registered under %s" % (w, _show_key(k)))
+                if shape:
+                    V.check("the remote is left out of the key only for multicast destinations", (k[1] is None) == r.mc, node, "%s: registered under %s" % (w, _show_key(k)))
+                V.check("what is registered is the request object handed in", v == r.rq, node, "%s: registered %r" % (w, v))
+        if part == "c":
+            pairing = "every registration is paired with a removal of the same key when interest ends"
+            if r.gone:
+                V.check(pairing, not new, node, "%s: the entry %s stays registered although nobody is left to end the interest" % (w, ", ".join(_show_key(k) for k, _ in new)))
+            else:
+                V.check(pairing, bool(r.cbs) or not new, node, "%s: no on_interest_end callback was registered" % w)
+                first = [it.try_call(cb) for cb in r.cbs]
+                left = _added(it, r.initial, r.D)
+                V.check(pairing, not left and all(k == "return" for k, _ in first) and _same_table(it, r.initial, r.D.pairs), node,
+                        "%s: after the interest ended the table still holds %s" % (w, ", ".join(_show_key(k) for k, _ in left) or "a different set of entries"))
+                second = [it.try_call(cb) for cb in r.cbs]
+                V.check(tolerant, all(k == "return" for k, _ in second) and _same_table(it, r.initial, r.D.pairs), node,
+                        "%s: running the removal again (the response path retired the key first) %s" % (w, "raises" if any(k != "return" for k, _ in second) else "changes other entries"))
+        if part == "d":
+            sets = [e for e in it.events if e.kind == "setattr" and e.obj == r.msg and e.attr == "token"]
+            V.check("exactly one token assignment", len(sets) == 1 and len(r.tokens) == 1, sets[-1].node if sets else None, "%s: %d assignment(s), %d token(s) drawn" % (w, len(sets), len(r.tokens)))
+            V.check("the request's token is a fresh one from next_token()", tok is not None and r.msg.attrs.get("token") == tok, sets[-1].node if sets else None,
+                    "%s: the message's token is %r" % (w, r.msg.attrs.get("token")))
+            if not r.gone:
+                for k, v in new:
+                    V.check("the token is assigned before the key is formed and the request is registered", isinstance(k, tuple) and len(k) == 2 and tok is not None and k[0] == tok, node,
+                            "%s: registered under %s while the message carries %r" % (w, _show_key(k), r.msg.attrs.get("token")))
+    V.emit()
 
 
 @R.clause("C02.c", "outgoing_requests: written only by TokenManager; registration paired with removal on loss of interest; retired iff the response is final")
 def c(ctx):
     w = field_writers(ctx.prog, "outgoing_requests")
     n = sum(len(v) for v in w.values())
-    ctx.floor("write sites of outgoing_requests", n, 5)
+    ctx.floor("write sites of outgoing_requests", n, 4)
     for fn, hits in sorted(w.items()):
         for kind, node in hits:
             fi = ctx.prog.funcs["aiocoap." + fn]
             ctx.ob("outgoing_requests is written only inside TokenManager", fn.startswith(TM) or fn.startswith("tokenmanager.TokenManager"), fi, node, detail="%s in %s" % (kind, fn))
     ctl = ast.parse("def f(x):\n    x.outgoing_requests.pop(k)\n").body[0]
     ctx.need(len(stores_to_any(ctl, "outgoing_requests")) == 1, "positive control for the writer scan failed")
-    fi = ctx.prog.func(TM + "request")
-    rq = params(fi)[0]
-    cfg = cfg_of(fi)
-    for k, st in [(k, n) for k, n in stores_to(fi.node, "self.outgoing_requests", nested=False) if k == "setitem"]:
-        nid = cfg.loc1(st)
-        key = st.targets[0].slice
-        regs = []
-        for call, bnd in find("%s.on_interest_end($cb)" % rq, fi.node):
-            pb = match("functools.partial(self.outgoing_requests.pop, $k, $*r)", bnd["cb"])
-            if pb is None and isinstance(bnd["cb"], ast.Lambda):
-                pb = match("self.outgoing_requests.pop($k, $*r)", bnd["cb"].body)
-            if pb is not None and same(pb["k"], key):
-                regs.append(cfg.loc1(call))
-                # a missing key must be tolerated (the response path pops first)
-                ctx.ob("the removal on loss of interest tolerates an already retired key", len(pb["r"]) >= 1, fi, call)
-        ctx.ob("every registration is paired with a removal of the same key when interest ends", bool(regs) and cfg.must_pass(nid, regs), fi, st)
-    fi = ctx.prog.func(TM + "process_response")
-    rs = params(fi)[0]
-    cfg = cfg_of(fi)
-    pops = [(k, n) for k, n in stores_to(fi.node, "self.outgoing_requests", nested=False) if k in ("pop", "delitem")]
-    adds = [c for c in calls_in(fi.node) if isinstance(c.func, ast.Attribute) and c.func.attr == "add_response"]
-    ctx.need(adds, "process_response: no add_response site")
-    # Decided on the path model: on every normal path that delivers the response, the value passed as
-    # is_last, the reference condition `not (request asked to observe and response carries Observe)` and
-    # "the registration was removed on this path" all agree.  Independent of how the branches are spelled.
-    from ..paths import PathModel
-    pm = PathModel(fi)
-    popnodes = {cfg.loc1(p_) for _k, p_ in pops}
-    look = [n for n in walk_no_nested(fi.node) if isinstance(n, ast.Subscript) and chain(n.value) == "self.outgoing_requests" and isinstance(n.ctx, ast.Load)]
-    for c_ in adds:
-        il = next((kw.value for kw in c_.keywords if kw.arg == "is_last"), None)
-        ctx.need(il is not None, "add_response without is_last keyword")
-        fin = resolve_local(fi.node, il)
-        recv = c_.func.value
-        rname = recv.id if isinstance(recv, ast.Name) else "?"
-        ref = ast.parse("not (%s.request.opt.observe == 0 and %s.opt.observe is not None)" % (rname, rs), mode="eval").body
-        dn = cfg.loc1(c_)
-        through = pm.paths_through(dn)
-        ctx.need(through, "process_response: delivery site on no normal path")
-        bad_ref = bad_pop = None
-        for p_ in through:
-            v = pm.truth(fin, p_)
-            r = pm.truth(ref, p_)
-            popped = any(n in popnodes for n in p_.nodes)
-            if (v is None or r is None or v != r) and bad_ref is None:
-                bad_ref = "on the path [%s]: is_last is %s, the reference condition is %s" % (pm.describe(p_), v, r)
-            if (v is None or popped != v) and bad_pop is None:
-                bad_pop = "on the path [%s]: is_last is %s, registration %s" % (pm.describe(p_), v, "removed" if popped else "kept")
-        ctx.ob("final = not (request asked to observe and the response carries an Observe option)", bad_ref is None, fi, c_, detail=bad_ref or "is_last = %s on %d path(s)" % (stmt_text(fin), len(through)))
-        ctx.ob("the registration is retired exactly when the response is final", bad_pop is None, fi, c_, detail=bad_pop)
-    for k, p_ in pops:
-        keyv = p_.args[0] if k == "pop" else p_.targets[0].slice
-        ctx.ob("the retired key is the key that matched", any(same(keyv, l.slice) for l in look) or any(same(resolve_local(fi.node, keyv), resolve_local(fi.node, l.slice)) for l in look), fi, p_)
+    _check_registration(ctx, "c")
+    # retirement: on every world that delivers, the value passed as is_last, the reference condition
+    # `not (request asked to observe (Observe=0) and the response carries Observe)` and "the entry is gone afterwards" agree
+    fi, runs = _process_response_runs(ctx)
+    V = _Verdicts(ctx, fi)
+    for r in runs:
+        wd = _world_pr(r)
+        it = r.it
+        ds = _deliveries(r)
+        target = r.full if r.full is not None else r.fallback
+        tkey = r.full_key if r.full is not None else r.fallback_key
+        if r.result[0] != "return":
+            continue  # reported by C02.b
+        others0 = [(k, v) for k, v in r.initial if target is None or not it.veq(k, tkey)]
+        others1 = [(k, v) for k, v in r.D.pairs if target is None or not it.veq(k, tkey)]
+        pops = [e.node for e in it.events if e.kind == "ddel" and e.d == "outgoing_requests"]
+        V.check("the retired key is the key that matched", _same_table(it, others0, others1), pops[0] if pops else (ds[0].node if ds else None),
+                "%s: afterwards the other entries are %s" % (wd, ", ".join(_show_key(k) for k, _ in others1)), run=r)
+        if target is None or len(ds) != 1 or ds[0].callee.parent != target:
+            continue  # reported by C02.a / C02.b
+        ref = not (r.ro == 0 and r.so is not None)
+        il = _is_last_of(ctx, ds[0])
+        kept = any(it.veq(k, tkey) and v == target for k, v in r.D.pairs)
+        V.check("final = not (request asked to observe and the response carries an Observe option)", il == ref, ds[0].node, "%s: is_last is %s" % (wd, il), run=r)
+        V.check("the registration is retired exactly when the response is final", kept == (not il), ds[0].node, "%s: is_last is %s, registration %s" % (wd, il, "kept" if kept else "removed"), run=r)
+    V.emit()
+
+
+# -- tokens --------------------------------------------------------------------------------------------------------------
+
+_COUNTERS = [0, 1, 2, 41, 254, 255, 256, 257, 511, 0xFFFF, 0x10000, 0x10001, 0x1000000, 0xFFFFFFFF, 0x100000000, 0x0100000000000000, 0x0100000000000001,
+             2 ** 63 - 1, 2 ** 63, 2 ** 64 - 3, 2 ** 64 - 2, 2 ** 64 - 1]
 
 
 @R.clause("C02.d", "tokens: 64-bit counter advanced only by next_token, injective rendering, assigned before the key is formed")
@@ -211,205 +422,123 @@ def d(ctx):
             fi = ctx.prog.funcs["aiocoap." + fn]
             ctx.ob("the token counter is written only by __init__ and next_token", fn in (TM + "__init__", TM + "next_token"), fi, node)
     fi = ctx.prog.func(TM + "next_token")
-    ups = [n for k, n in stores_to(fi.node, "self._token", nested=False) if k == "assign"]
-    ctx.floor("counter updates in next_token", len(ups), 1)
-    N = Normalizer()
-    for u in ups:
-        if isinstance(u, ast.AugAssign):
-            val = ast.BinOp(left=u.target, op=u.op, right=u.value)
-        else:
-            val = u.value
-        mb = match("$x % $m", val)
-        ok = False
-        detail = stmt_text(val)
-        if mb is not None:
-            try:
-                ok = N.poly(mb["x"]) == Poly.atom("self._token") + Poly.const(1) and N.poly(mb["m"]) == Poly.const(2 ** 64)
-            except norm.NormError:
-                ok = False
-        else:
-            mb2 = match("$x & $m", val)
-            if mb2 is not None:
-                try:
-                    ok = N.poly(mb2["x"]) == Poly.atom("self._token") + Poly.const(1) and N.poly(mb2["m"]) == Poly.const(2 ** 64 - 1)
-                except norm.NormError:
-                    ok = False
-        ctx.ob("the counter advances by exactly one modulo 2**64 (2**64 distinct tokens before a repeat)", ok, fi, u, detail=detail)
+    ctx.need(not params(fi), "next_token takes no arguments")
+    qn = _tm_qn(ctx)
+    V = _Verdicts(ctx, fi)
     rets = [n for n in walk_no_nested(fi.node) if isinstance(n, ast.Return)]
-    ctx.floor("returns in next_token", len(rets), 1)
-    cfg = cfg_of(fi)
-    for r in rets:
-        v = r.value
-        okr = match("self._token.to_bytes(8, 'big').lstrip(b'\\x00')", v) is not None or match("self._token.to_bytes(8, 'big')", v) is not None
-        ctx.ob("the token is an injective rendering of the counter (8-byte big endian, leading zeros stripped)", okr, fi, r)
-        ctx.ob("the counter is advanced before the token is handed out", any(cfg.dominates(cfg.loc1(u), cfg.loc1(r)) for u in ups), fi, r)
-    fi = ctx.prog.func(TM + "request")
-    rq = params(fi)[0]
-    cfg = cfg_of(fi)
-    tok_stores = []
-    for n in walk_no_nested(fi.node):
-        if isinstance(n, ast.Assign):
-            for t in n.targets:
-                if isinstance(t, ast.Attribute) and t.attr == "token" and _component(fi, t) == rq + ".request.token":
-                    tok_stores.append(n)
-    ctx.floor("token assignments in request()", len(tok_stores), 1)
-    ctx.ob("exactly one token assignment", len(tok_stores) == 1, fi, tok_stores[-1])
-    for s in tok_stores:
-        ctx.ob("the request's token is a fresh one from next_token()", match("self.next_token()", s.value) is not None, fi, s)
-        for k, st in [(k, n) for k, n in stores_to(fi.node, "self.outgoing_requests", nested=False) if k == "setitem"]:
-            ctx.ob("the token is assigned before the request is registered", cfg.dominates(cfg.loc1(s), cfg.loc1(st)), fi, st)
-            key = st.targets[0].slice
-            if isinstance(key, ast.Name):
-                for w, v in _key_values(fi, key.id):
-                    ctx.ob("the token is assigned before the key is formed", cfg.dominates(cfg.loc1(s), cfg.loc1(w)), fi, w)
+    ups = [n for _k, n in stores_to(fi.node, "self._token", nested=False)]
+    seen = {}
+    for k in _COUNTERS:
+        me = kit.Obj("self", True, cls=qn, attrs={"_token": k})
+        it = kit.Interp(ctx.prog)
+        kind, tok = it.run_method(fi, me, [])
+        ctx.need(kind == "return" and not it.choices, "next_token: the evaluated world is not deterministic")
+        after = me.attrs.get("_token")
+        V.check("the counter advances by exactly one modulo 2**64 (2**64 distinct tokens before a repeat)", after == (k + 1) % 2 ** 64 and not isinstance(after, bool), ups[0] if ups else None,
+                "counter %d becomes %r" % (k, after))
+        ctx.need(isinstance(tok, bytes), "next_token does not return bytes in the evaluated world (%r)" % (tok,))
+        V.check("the token fits the 8 bytes of a CoAP token", len(tok) <= 8, rets[0] if rets else None, "counter %d gives a token of %d bytes" % (k, len(tok)))
+        if isinstance(after, int):
+            other = seen.setdefault(tok, after)
+            V.check("the token is an injective rendering of the counter (8-byte big endian, leading zeros stripped)", other == after, rets[0] if rets else None,
+                    "the counter values %d and %d both give the token %r" % (other, after, tok))
+    V.emit()
+    _check_registration(ctx, "d")
+
+
+# -- transport errors -------------------------------------------------------------------------------------------------------
+
+class _DERun:
+    pass
+
+
+def _dispatch_error_runs(ctx):
+    """dispatch_error(exception, remote) on tables with two entries of the reported remote and one of another remote
+    each, for an exception that is / is not a NetworkError.  As in the library, failing a request retires its entry
+    (Pipe.add_exception -> on_interest_end callback) and a stopper removes the incoming entry it belongs to."""
+    def build():
+        fi = ctx.prog.func(TM + "dispatch_error")
+        ps = params(fi)
+        ctx.need(len(ps) == 2, "dispatch_error: (exception, remote) expected")
+        qn = _tm_qn(ctx)
+        ne = ctx.prog.cls("error.NetworkError").qn
+        runs = []
+        for isnet in (False, True):
+            def run(script, isnet=isnet):
+                r = _DERun()
+                r.isnet = isnet
+                Rm, R2 = kit.Obj("remote", True), kit.Obj("other-remote", True)
+                t = [kit.Obj("token-%d" % i, True) for i in range(6)]
+                r.mine = [kit.Obj("request-1-of-the-remote", True), kit.Obj("request-2-of-the-remote", True)]
+                r.foreign = [kit.Obj("request-of-another-remote", True)]
+                out = [((t[0], Rm), r.mine[0]), ((t[1], R2), r.foreign[0]), ((t[2], Rm), r.mine[1])]
+                r.stop_mine = [kit.Obj("stopper-1-of-the-remote", True), kit.Obj("stopper-2-of-the-remote", True)]
+                r.stop_foreign = [kit.Obj("stopper-of-another-remote", True)]
+                inc = [((t[3], Rm), (kit.Obj("pipe-1", True), r.stop_mine[0])), ((t[4], R2), (kit.Obj("pipe-2", True), r.stop_foreign[0])),
+                       ((t[5], Rm), (kit.Obj("pipe-3", True), r.stop_mine[1]))]
+                O = kit.VDict(out, name="outgoing_requests")
+                I = kit.VDict(inc, name="incoming_requests")
+                me = kit.Obj("self", True, cls=qn, attrs={"outgoing_requests": O, "incoming_requests": I})
+                exc = kit.Obj("exception", True)
+                r.exc = exc
+
+                def opaque(it, callee, args, kwargs, node):
+                    if callee.attr == "add_exception" and callee.parent is not None:
+                        O.pairs[:] = [p for p in O.pairs if p[1] != callee.parent]
+                        return None
+                    if callee.parent is None and callee in r.stop_mine + r.stop_foreign:
+                        I.pairs[:] = [p for p in I.pairs if not (isinstance(p[1], tuple) and callee in p[1])]
+                        return None
+                    return NotImplemented
+                it = kit.Interp(ctx.prog, script, opaque_call=opaque, isa={(exc.name, ne): isnet})
+                r.result = it.run_method(fi, me, [exc, Rm])
+                r.it = it
+                _no_foreign_objects(ctx, it, "dispatch_error")
+                return it, r
+            for it, r in kit.explore(run):
+                runs.append(r)
+        return fi, ne, runs
+    return _cached(ctx, "dispatch_error", build)
 
 
 @R.clause("C02.e", "transport errors are fanned out only to requests of the reported remote, always as NetworkError")
 def e(ctx):
-    fi = ctx.prog.func(TM + "dispatch_error")
-    p = params(fi)
-    exc, rem = p[0], p[1]
-    cfg = cfg_of(fi)
-    # sites where something is added to a collection of stoppers: `l.append(x)` inside a loop, or
-    # `l.extend(<comprehension>)` (the comprehension's ifs play the role of the guards)
-    apps = []  # (call node, [(cond, polarity)], names bound per element, element expr)
-    for c, b in find("$l.append($x)", fi.node):
-        if isinstance(b["l"], ast.Name):
-            apps.append((c, guard_exprs(cfg, cfg.loc1(c)), None, b["x"]))
-    for c, b in find("$l.extend($g)", fi.node):
-        g = b["g"]
-        if isinstance(b["l"], ast.Name) and isinstance(g, (ast.GeneratorExp, ast.ListComp)):
-            conds = [(e_, True) for gen in g.generators for e_ in gen.ifs]
-            bound = {n.id for gen in g.generators for n in ast.walk(gen.target) if isinstance(n, ast.Name)}
-            apps.append((c, conds + guard_exprs(cfg, cfg.loc1(c)), bound, g.elt))
-    ctx.ob("stoppers are collected for outgoing and for incoming requests", len(apps) >= 2, fi, fi.node, construct="def dispatch_error: stopper collection", detail="%d collection site(s)" % len(apps))
-    for c, gs, bound, elt in apps:
-        ok = False
-        for e_, pol in gs:
-            if pol and isinstance(e_, ast.Compare) and len(e_.ops) == 1 and isinstance(e_.ops[0], ast.Eq):
-                sides = [e_.left, e_.comparators[0]]
-                if any(isinstance(s_, ast.Name) and s_.id == rem for s_ in sides) and any(isinstance(s_, ast.Name) and s_.id != rem for s_ in sides):
-                    other = [s_ for s_ in sides if not (isinstance(s_, ast.Name) and s_.id == rem)][0]
-                    # the other side must be bound to the *remote component* (index 1) of the iterated table's key
-                    ok = _is_remote_component(fi, cfg, c, other.id)
-        ctx.ob("a request is failed only if its remote equals the reported remote", ok, fi, c, detail="conditions: %s" % [stmt_text(e_) for e_, _ in gs])
-        # late binding: a closure created per iteration must not refer to the loop's variables by reference
-        for lam in [n for n in ast.walk(elt) if isinstance(n, ast.Lambda)] + ([_nested_def(fi, elt)] if isinstance(elt, ast.Name) and _nested_def(fi, elt) is not None else []):
-            loopnames = _loop_bound_names(cfg, c) if bound is None else set(bound)
-            a_ = lam.args
-            own = {x.arg for x in a_.posonlyargs + a_.args + a_.kwonlyargs}
-            body = lam.body if isinstance(lam, ast.Lambda) else lam
-            free = {n.id for n in ast.walk(body) if isinstance(n, ast.Name) and isinstance(n.ctx, ast.Load)} - own
-            late = sorted(free & loopnames)
-            ctx.ob("each stopper acts on its own request (loop variables are bound per iteration, not captured by reference)", not late, fi, c,
-                   detail="closure refers to loop variable(s) %s by reference: every stopper would act on the last request iterated" % late if late else None)
-    # the loop-collected stoppers are all called
-    calls_stop = []
-    for n in walk_no_nested(fi.node):
-        if isinstance(n, ast.For) and isinstance(n.target, ast.Name):
-            for c in calls_in(n):
-                if isinstance(c.func, ast.Name) and c.func.id == n.target.id and any(isinstance(a[0].func, ast.Attribute) and chain(a[0].func.value) == chain(n.iter) for a in apps):
-                    calls_stop.append(c)
-    ctx.ob("every collected stopper is invoked", bool(calls_stop), fi, fi.node, construct="def dispatch_error")
-    # NetworkError conversion
-    conv = [n for n in walk_no_nested(fi.node) if isinstance(n, ast.Assign) and any(isinstance(t, ast.Name) and t.id == exc for t in n.targets)]
-    okc = False
-    for a_ in conv:
-        cls = ctx.prog.resolve_in_module(fi.module, chain(a_.value.func) or "?") if isinstance(a_.value, ast.Call) else None
-        nid = cfg.loc1(a_)
-        if cls and ctx.prog.is_subclass(cls, "aiocoap.error.NetworkError") and guarded_by(cfg, nid, "isinstance(%s, error.NetworkError)" % exc, False):
-            okc = True
-    ctx.ob("an exception that is not a NetworkError is replaced by a NetworkError before it is handed to requests", okc, fi, conv[0] if conv else fi.node,
-           construct=stmt_text(conv[0]) if conv else "def dispatch_error")
-    # every use of the exception in a stopper happens after the conversion point
-    for c, _gs, _b, _e in apps:
-        if conv:
-            ctx.ob("stoppers are created after the conversion", all(not cfg.exists_path(cfg.entry, cfg.loc1(c), avoid={n.id for n in cfg.nodes if n.kind in ("T", "F") and n.ast is not None and match("isinstance(%s, error.NetworkError)" % exc, n.ast) is not None}) for _ in [0]), fi, c)
+    fi, ne, runs = _dispatch_error_runs(ctx)
+    V = _Verdicts(ctx, fi)
+    for r in runs:
+        w = "world: two outgoing and two incoming requests of the reported remote, one each of another remote; the exception is %sa NetworkError" % ("" if r.isnet else "not ")
+        kind, val = r.result
+        V.check("dispatch_error fails the requests without disturbing its own iteration over the request tables", kind == "return", None,
+                "%s: raises %s (failing a request removes its table entry: iterate first, then fail)" % (w, val.cls if kind == "raise" else ""), run=r)
+        if kind != "return":
+            continue
+        fails = [e_ for e_ in r.it.events if e_.kind == "call" and e_.callee.attr == "add_exception" and e_.callee.parent is not None]
+        stops = [e_ for e_ in r.it.events if e_.kind == "call" and e_.callee.parent is None and e_.callee in r.stop_mine + r.stop_foreign]
+        only = "a request is failed only if its remote equals the reported remote"
+        for e_ in fails:
+            V.check(only, e_.callee.parent in r.mine, e_.node, "%s: %s was failed" % (w, e_.callee.parent.name), run=r)
+        for e_ in stops:
+            V.check(only, e_.callee in r.stop_mine, e_.node, "%s: %s was invoked" % (w, e_.callee.name), run=r)
+        V.check(only, True)
+        n_out = [sum(1 for e_ in fails if e_.callee.parent == q) for q in r.mine]
+        n_in = [sum(1 for e_ in stops if e_.callee == s) for s in r.stop_mine]
+        anynode = (fails or stops or [None])[0]
+        anynode = anynode.node if anynode is not None else None
+        V.check("stoppers are collected for outgoing and for incoming requests", sum(n_out) > 0 and sum(n_in) > 0, anynode,
+                "%s: %d outgoing request(s) failed, %d incoming request(s) stopped" % (w, sum(n_out), sum(n_in)), run=r)
+        late = sum(n_out) == len(r.mine) and 0 in n_out
+        V.check("each stopper acts on its own request (loop variables are bound per iteration, not captured by reference)", not late, fails[0].node if fails else None,
+                "%s: failed %s times: the closure refers to the loop variable by reference, every stopper acts on the last request iterated" % (w, n_out), run=r)
+        V.check("every request of the reported remote is failed / stopped exactly once", late or (all(x == 1 for x in n_out) and all(x == 1 for x in n_in)), anynode,
+                "%s: outgoing requests failed %s times, incoming stoppers invoked %s times" % (w, n_out, n_in), run=r)
+        for e_ in fails:
+            a0 = e_.args[0] if e_.args else None
+            isn = isinstance(a0, kit.Obj) and ((a0 == r.exc and r.isnet) or (a0.cls is not None and ctx.prog.is_subclass(a0.cls, ne)))
+            V.check("an exception that is not a NetworkError is replaced by a NetworkError before it is handed to requests", isn, e_.node,
+                    "%s: the request receives %r" % (w, a0), run=r)
+    V.emit()
     ci = ctx.prog.cls("error.NetworkError")
     ctx.ob("NetworkError derives from the library's error base class", ctx.prog.is_subclass(ci.qn, "aiocoap.error.Error"), None, None, construct="class NetworkError")
-
-
-def _target_path(target, name):
-    """Index path of Name `name` inside a (nested) tuple target, or None."""
-    if isinstance(target, ast.Name):
-        return () if target.id == name else None
-    if isinstance(target, (ast.Tuple, ast.List)):
-        for i, e in enumerate(target.elts):
-            p = _target_path(e, name)
-            if p is not None:
-                return (i,) + p
-    return None
-
-
-def _is_remote_component(fi, cfg, node, name):
-    """Is `name` bound to component 1 (the remote; keys are (token, remote), C02.a) of the key of the request
-    table iterated by the for loop / comprehension enclosing `node`?"""
-    p = cfg.parent.get(id(node))
-    scopes = []
-    # comprehension inside the call itself
-    for n in ast.walk(node):
-        if isinstance(n, (ast.GeneratorExp, ast.ListComp)):
-            for g in n.generators:
-                scopes.append((g.target, g.iter, None))
-    while p is not None:
-        if isinstance(p, (ast.For, ast.AsyncFor)):
-            scopes.append((p.target, p.iter, p))
-        p = cfg.parent.get(id(p))
-    for target, it, loop in scopes:
-        mode = None
-        if isinstance(it, ast.Call) and isinstance(it.func, ast.Attribute) and it.func.attr in ("items", "keys") and (chain(it.func.value) or "").endswith("_requests"):
-            mode = it.func.attr
-        elif (chain(it) or "").endswith("_requests"):
-            mode = "keys"
-        if mode is None:
-            continue
-        keypath = (0,) if mode == "items" else ()
-        path = _target_path(target, name)
-        if path is not None:
-            return path == keypath + (1,)
-        # bound by unpacking the key variable inside the loop body: (a, b) = key
-        if loop is not None:
-            for w in writes_to_name(loop, name):
-                if isinstance(w, ast.Assign) and isinstance(w.value, ast.Name) and _target_path(target, w.value.id) == keypath:
-                    return _target_path(w.targets[0], name) == (1,)
-    return False
-
-
-def _loop_bound_names(cfg, node):
-    """Names (re)bound on every iteration of the for loops enclosing node."""
-    out = set()
-    p = cfg.parent.get(id(node))
-    while p is not None:
-        if isinstance(p, (ast.For, ast.AsyncFor)):
-            out |= {n.id for n in ast.walk(p.target) if isinstance(n, ast.Name)}
-            for st in p.body:
-                for n in ast.walk(st):
-                    if isinstance(n, ast.Name) and isinstance(n.ctx, ast.Store):
-                        out.add(n.id)
-        p = cfg.parent.get(id(p))
-    return out
-
-
-def _nested_def(fi, name_node):
-    for n in walk_no_nested(fi.node):
-        if isinstance(n, (ast.FunctionDef, ast.AsyncFunctionDef)) and n.name == name_node.id:
-            return n
-    return None
-
-
-def _bound_by_enclosing_for(fi, cfg, node, name):
-    """Is `name` bound (directly or by unpacking) from the target of a for loop enclosing `node`?"""
-    p = cfg.parent.get(id(node))
-    while p is not None:
-        if isinstance(p, ast.For):
-            tnames = {n.id for n in ast.walk(p.target) if isinstance(n, ast.Name)}
-            if name in tnames:
-                return True
-            for w in writes_to_name(p, name):
-                if isinstance(w, ast.Assign) and any(isinstance(x, ast.Name) and x.id in tnames for x in ast.walk(w.value)):
-                    return True
-        p = cfg.parent.get(id(p))
-    return False
 
 
 @R.clause("C02.f", "Request._run completes the response future exactly once, before its first suspension after the first event, and never again")
@@ -552,6 +681,19 @@ R.seed("C02.c", F_TM, "            request.request.opt.observe == 0 and response
 R.seed("C02.c", F_TM, "        request.add_response(response, is_last=final)", "        request.add_response(response, is_last=True)", "is_last constant")
 R.seed("C02.c", F_TM, "        request.on_interest_end(\n            functools.partial(self.outgoing_requests.pop, key, None)\n        )\n", "", "cancelled request stays registered")
 R.seed("C02.c", "aiocoap/messagemanager.py", "        self.log.debug(\"Incoming error %s from %r\", error, remote)\n", "        self.log.debug(\"Incoming error %s from %r\", error, remote)\n        self.token_manager.outgoing_requests.clear()\n", "foreign writer")
+R.seed("C02.a", F_TM, "            key = (msg.token, None)\n", "            key = (msg.token, msg.remote)\n", "multicast request filed under the group address: no response (they come from unicast addresses) ever matches")
+R.seed("C02.c", F_TM, "        self.outgoing_requests[key] = request\n        request.on_interest_end(\n            functools.partial(self.outgoing_requests.pop, key, None)\n        )\n",
+       "        request.on_interest_end(\n            functools.partial(self.outgoing_requests.pop, key, None)\n        )\n        self.outgoing_requests[key] = request\n",
+       "removal hooked up before the registration: a request nobody is interested in any more stays registered for good")
+R.seed("C02.c", F_TM, "            functools.partial(self.outgoing_requests.pop, key, None)\n", "            functools.partial(self.outgoing_requests.pop, key)\n",
+       "removal not tolerant: KeyError out of the pipe callbacks once the final response retired the key")
+R.seed("C02.c", F_TM, "            functools.partial(self.outgoing_requests.pop, key, None)\n", "            functools.partial(self.outgoing_requests.pop, (msg.token, msg.remote), None)\n",
+       "removal under the unicast key: cancelled multicast requests stay registered")
+R.seed("C02.b", F_TM, "            request = self.outgoing_requests[key]\n        except KeyError:", "            request = self.outgoing_requests[key]\n            request.add_response(response, is_last=False)\n        except KeyError:", "delivered twice")
+R.seed("C02.d", F_TM, "        msg.token = self.next_token()\n", "        msg.token = msg.token or self.next_token()\n", "a token supplied from outside is kept: not fresh")
+R.seed("C02.d", F_TM, "        return self._token.to_bytes(8, \"big\").lstrip(b\"\\0\")", "        return self._token.to_bytes(8, \"big\").strip(b\"\\0\")", "0x01 and 0x0100 give the same token")
+R.seed("C02.e", F_TM, "                stoppers.append(\n                    lambda request=request, exception=exception: request.add_exception(\n                        exception\n                    )\n                )",
+       "                request.add_exception(exception)", "requests failed while the table is iterated: failing a request pops its entry -> RuntimeError, the remaining requests never fail")
 R.seed("C02.d", F_TM, "        self._token = (self._token + 1) % (2**64)", "        self._token = (self._token + 0) % (2**64)", "token never changes")
 R.seed("C02.d", F_TM, "        self._token = (self._token + 1) % (2**64)", "        self._token = (self._token + 1) % (2**4)", "16 tokens only")
 R.seed("C02.d", F_TM, "        return self._token.to_bytes(8, \"big\").lstrip(b\"\\0\")", "        return self._token.to_bytes(8, \"big\")[:1]", "non-injective rendering")
